@@ -4,7 +4,7 @@ Oracle (metamorphic): the outputs of the original encoding.  Every dimension is
 re-expressed with every possible common value (0..extent, the last one never
 occurring in the data), singly (quick) or in all combinations (thorough, small
 cubes), optionally re-normalised afterwards; the dense twin of the shifted copy
-is compared first so that a broken shift_common is attributed to C06."""
+is compared first, so that a broken re-encoding is reported as such."""
 import itertools
 
 import numpy
@@ -23,13 +23,13 @@ META = {
     "require": {t: ["enc:to_absent_value", "enc:to_empty_value_inside", "enc:to_frequent", "enc:renormalised",
                     "agg:count", "agg:mean", "class:w=scalar", "class:ndims=3"] for t in ("quick", "thorough")},
     "assumptions": ["every encoding uses the same explicit cube shape (extent+1 per dimension) so that outputs are comparable",
-                    "re-encoding is done with the library's own shift_common; its dense result is checked first (blame C06)"],
+                    "re-encoding is done with the library's own shift_common; if its dense result differs from the original the re-encoding itself is reported (C06 reports the same defect at the operation)"],
 }
 
 
 def shards(tier):
     if tier == "quick":
-        return [{"label": "cubes%d" % i, "n": 45, "all": False} for i in range(12)]
+        return [{"label": "cubes%d" % i, "n": 160, "all": False} for i in range(14)]
     return [{"label": "cubes%d" % i, "n": 700, "all": True} for i in range(16)]
 
 
@@ -88,7 +88,13 @@ def judge(ctx, case):
                 y.shift_common()
                 ctx.count("enc:renormalised")
             if not numpy.array_equal(gen.index_to_dense(y, numpy.int64), dense[d]):
-                ctx.count("stopped:shift_common-wrong(blame C06)")
+                # the re-expressed dimension no longer stands for the same data: every output that
+                # depends on it changes.  (C06 reports the same defect at the operation itself.)
+                ctx.count("reencoding_changed_dense_content")
+                ctx.evaluation(hh + repr(enc) + "dense", True)
+                ctx.violation("reencoding-changes-content:axes=%d%s" % (dense[d].ndim, ",renormalised" if renorm and d == 0 else ""),
+                              "re-expressing dimension %d with common value %r%s changes its dense content (also a C06 matter)"
+                              % (d, int(v), " and re-normalising" if renorm and d == 0 else ""), dict(case, enc=list(enc)))
                 return
             if v != case["commons"][d]:
                 changed = True
